@@ -1,0 +1,34 @@
+// Copyright Amazon.com, Inc. or its affiliates. All Rights Reserved.
+// SPDX-License-Identifier: Apache-2.0
+
+//! Verification hook, compiled only with `--cfg metrique_verif`: a thread-local callback invoked at the sync
+//! points of `readout` (before every per-key step), so that a test harness can place metric updates between
+//! the steps of a readout deterministically. Without an installed callback the sync points do nothing.
+
+use std::cell::RefCell;
+
+/// The callback: sync point name and, for per-key points, the key about to be visited.
+pub type Hook = Box<dyn FnMut(&'static str, Option<&metrics_024::Key>)>;
+
+thread_local! {
+    static HOOK: RefCell<Option<Hook>> = const { RefCell::new(None) };
+}
+
+/// Install (or with `None` remove) the callback for readouts performed on the current thread.
+pub fn set_hook(hook: Option<Hook>) -> Option<Hook> {
+    HOOK.with(|h| std::mem::replace(&mut *h.borrow_mut(), hook))
+}
+
+pub(crate) fn sync_point(name: &'static str, key: Option<&metrics_024::Key>) {
+    HOOK.with(|h| {
+        // take the callback out while it runs so that it may itself perform a readout
+        let taken = h.borrow_mut().take();
+        if let Some(mut f) = taken {
+            f(name, key);
+            let mut slot = h.borrow_mut();
+            if slot.is_none() {
+                *slot = Some(f);
+            }
+        }
+    });
+}
